@@ -138,6 +138,13 @@ def _minmax(is_max):
             it.outside("min/max with key", node)
         if not items:
             it.raise_(ValueError, "empty sequence", node=node)
+        if all(sym.is_intlike(x) for x in items) and getattr(it, "branch_minmax", False):
+            # case split instead of an if-then-else term: keeps exponents of pow2 linear per path
+            r = items[0]
+            for x in items[1:]:
+                if it.truth(sym.to_z3(sym.to_int(x)) > sym.to_z3(sym.to_int(r)) if is_max else sym.to_z3(sym.to_int(x)) < sym.to_z3(sym.to_int(r)), node):
+                    r = x
+            return r
         if all(sym.is_intlike(x) for x in items):
             r = items[0]
             for x in items[1:]:
